@@ -19,6 +19,16 @@ def run(rep, tier, seed):
     npk = 200 if tier == 'quick' else 2500
     for i in range(npk):
         stack, pkt, st, pd = gen_parsed(rnd, ALL_STACKS[i % len(ALL_STACKS)])
+        # the same Ruler object sees packets of both directions, several times (a matcher must not remember the previous packet)
+        from microschc.ruler.ruler import Ruler
+        from p_c18 import dir_rule
+        pd.direction = DI.UP
+        alt, _ = dir_rule(rnd, pd, DI.UP)
+        shared_rules = [alt, gen_rule(rnd, pd, randbits(rnd, 6), direction=DI.DOWN), gen_rule(rnd, pd, randbits(rnd, 7))]
+        shared = Ruler(shared_rules)
+        for d in (DI.UP, DI.DOWN, DI.UP, DI.DOWN):
+            pd.direction = d
+            case_match(b, pd, shared_rules, klass='match-shared-ruler:' + stack, ruler=shared)
         for d in (DI.UP, DI.DOWN):
             pd.direction = d
             base = gen_rule(rnd, pd, randbits(rnd, rnd.randint(1, 12)), direction=rnd.choice([DI.BIDIRECTIONAL, DI.BIDIRECTIONAL, d]))
